@@ -922,6 +922,65 @@ pub fn run_c12(run: &mut Run) -> anyhow::Result<()> {
     for hidx in 0..(if run.quick() { 2 } else { 40 }) {
         backpressure_history(run, hidx as u64)?;
     }
+    // (d) "any number of abandoned RPCs": thousands on one connection, each one noticed by the callee
+    for hidx in 0..(if run.quick() { 1 } else { 6 }) {
+        very_long_abandon_history(run, hidx as u64, if run.quick() { 1_300 } else { 6_000 })?;
+    }
+    Ok(())
+}
+
+fn very_long_abandon_history(run: &mut Run, hidx: u64, total: usize) -> anyhow::Result<()> {
+    let seed = run.seed ^ 0xc12d ^ (hidx << 20);
+    mark_file(&format!("scenario very_long_abandon_history {hidx} ({total} abandoned calls on one connection) seed {} (re-run with ./check C12 --seed <seed>)", run.seed));
+    let rt = paused_rt();
+    let res: anyhow::Result<(usize, Option<String>, i64, usize)> = rt.block_on(async move {
+        let fabric = Fabric::new(seed);
+        let a = start_node(&fabric, seed, 1, config_idle(600_000))?;
+        let b = start_node(&fabric, seed, 2, config_idle(600_000))?;
+        let p = a.net.connect(b.addr).await?;
+        let mut la = crate::peers::NodeLog::new(&a.net);
+        let mut done = 0usize;
+        let mut problem = None;
+        let batch = 50usize;
+        while done < total && problem.is_none() {
+            let mut hs = vec![];
+            for i in 0..batch {
+                let net = a.net.clone();
+                let id = format!("ab{}", done + i);
+                // abandoned while the handler runs (timeout) or while the request is on its way (drop at once)
+                let wait = if i % 5 == 0 { 0 } else { 20 + (i as u64 % 7) };
+                hs.push(tokio::spawn(async move {
+                    let f = net.rpc(p, Request::new(Bytes::from(vec![1u8; 200])).with_header("x-id", id).with_header("x-sleep-ms", "5000"));
+                    let _ = tokio::time::timeout(Duration::from_millis(wait), f).await;
+                }));
+            }
+            for h in hs {
+                let _ = h.await;
+            }
+            done += batch;
+            tokio::time::sleep(Duration::from_millis(60)).await;
+            let r = tokio::time::timeout(Duration::from_secs(10), a.net.rpc(p, Request::new(Bytes::from_static(b"ok")).with_header("x-id", format!("good{done}")))).await;
+            match r {
+                Ok(Ok(resp)) if resp.status() == StatusCode::Success => {}
+                Ok(Ok(resp)) => problem = Some(format!("after {done} abandoned calls a well-formed call was answered {:?}", resp.status())),
+                Ok(Err(e)) => problem = Some(format!("after {done} abandoned calls a well-formed call failed: {e:#}")),
+                Err(_) => problem = Some(format!("after {done} abandoned calls a well-formed call got no answer within 10 s")),
+            }
+        }
+        tokio::time::sleep(Duration::from_millis(6_000)).await;
+        la.pump();
+        let alive = b.svc.concurrent.load(Ordering::SeqCst);
+        Ok((done, problem, alive, la.events.len()))
+    });
+    drop(rt);
+    let (done, problem, alive, events) = res?;
+    run.eval(&format!("very-long-abandon-history {hidx}"), true);
+    run.count("very-long-abandon-history", if problem.is_none() { "served-throughout" } else { "broken" });
+    if let Some(p) = problem {
+        run.oracle_fail(json!({"kind": "abandoned RPCs exhaust or break the connection: later RPCs fail", "detail": p, "abandoned_calls": done, "seed": run.seed}));
+    } else if alive != 0 || events != 0 {
+        run.oracle_fail(json!({"kind": "after a long history of abandoned RPCs handlers are still alive on the callee, or the pair saw connect/disconnect events", "handlers_alive": alive, "peer_events_at_caller": events, "abandoned_calls": done, "seed": run.seed}));
+    }
     Ok(())
 }
 
